@@ -174,7 +174,7 @@ def features(p):
 # generator
 # ---------------------------------------------------------------------------
 class Gen:
-    def __init__(self, rng, stateful_arms=False, max_funs=4, depth=4, allow_mul=True, inputs=True):
+    def __init__(self, rng, stateful_arms=False, max_funs=4, depth=4, allow_mul=True, inputs=True, block_lets=False):
         self.rng = rng
         self.stateful_arms = stateful_arms
         self.max_funs = max_funs
@@ -182,6 +182,7 @@ class Gen:
         self.allow_mul = allow_mul
         self.inputs = inputs
         self.next_id = 10
+        self.block_lets = block_lets
         self.cur_delay = None
 
     def fresh(self):
@@ -204,7 +205,10 @@ class Gen:
         if c < 7:
             return ('neg', self.expr(depth - 1, vars_, funs, in_fun, stateless))
         if c < 9:
-            # `let` is generated at statement level only (body()): a block in operand position is outside the fragment
+            if self.block_lets and r.chance(1, 2):
+                # a block expression `{ let x = a  b }` in operand position; the binder sometimes SHADOWS a variable in scope
+                x = r.choice(vars_) if (vars_ and r.chance(1, 3)) else self.fresh()
+                return ('let', x, self.expr(depth - 1, vars_, funs, in_fun, stateless), self.expr(depth - 1, vars_ + [x], funs, in_fun, stateless))
             return ('bin', r.choice(["add", "sub", "max", "min"]), self.expr(depth - 1, vars_, funs, in_fun, stateless), self.expr(depth - 1, vars_, funs, in_fun, stateless))
         if c < 11:
             arm_stateless = stateless or not self.stateful_arms
@@ -233,7 +237,7 @@ class Gen:
         vars_ = list(vars_)
         lets = []
         for _ in range(r.choice([0, 0, 1, 1, 2])):
-            x = self.fresh()
+            x = r.choice(vars_) if (self.block_lets and vars_ and r.chance(1, 4)) else self.fresh()
             lets.append((x, self.expr(depth - 1, vars_, funs, in_fun)))
             vars_.append(x)
         e = self.expr(depth, vars_, funs, in_fun)
@@ -466,7 +470,7 @@ def gen_cases(ck, n_cases, n_samples, tag="gen", stateful_arms_share=8):
     for i in range(n_cases):
         r = ck.rng.fork((tag, i))
         g = Gen(r, stateful_arms=(stateful_arms_share and i % stateful_arms_share == stateful_arms_share - 1),
-                max_funs=r.choice([1, 2, 3, 4, 5]), depth=r.choice([2, 3, 3, 4, 4, 5]))
+                max_funs=r.choice([1, 2, 3, 4, 5]), depth=r.choice([2, 3, 3, 4, 4, 5]), block_lets=(i % 3 == 1))
         p = g.program()
         rows = gen_inputs(r.fork("in"), n_samples, len(p['inputs']))
         cases.append((p, rows))
